@@ -194,6 +194,47 @@ def r17d(ctx):
         raise AnalysisError("R17d: strip loops not found")
 
 
+def r17g(ctx):
+    """Emptiness drives every strip: a cell that has a value, children or is part of a span is never empty, in both modes."""
+    repo = ctx.repo
+    ctx.rule("R17g", "Cell.is_empty: value, children and span membership make a cell non-empty regardless of `aggressive`", floor=3)
+    f = repo.func("Cell.is_empty")
+    wanted = {"value": lambda n: isinstance(n, ast.Attribute) and n.attr == "value" and isinstance(n.value, ast.Name) and n.value.id == "self",
+              "children": lambda n: isinstance(n, ast.Attribute) and n.attr == "children" and isinstance(n.value, ast.Name) and n.value.id == "self",
+              "is_spanned": lambda n: isinstance(n, ast.Call) and call_name(n) in ("is_spanned", "_is_spanned")}
+    for what, pred in wanted.items():
+        sites = [n for n in walk_no_nested(f.node) if pred(n)]
+        ok = False
+        for s_ in sites:
+            gs = structural_guards(s_, stop=f.node)
+            in_test = None
+            cur = s_
+            while cur is not None and not isinstance(cur, ast.stmt):
+                cur = getattr(cur, "_parent", None)
+            # the site must sit in an `if …: return False` test (or a returned conjunction) that no `aggressive` guard controls
+            dep_aggr = any("aggressive" in ast.unparse(t) for t, _ in gs)
+            same_test_aggr = isinstance(cur, (ast.If, ast.Return)) and "aggressive" in ast.unparse(cur.test if isinstance(cur, ast.If) else cur.value) and \
+                _aggr_gates(cur.test if isinstance(cur, ast.If) else cur.value, s_)
+            if not dep_aggr and not same_test_aggr:
+                ok = True
+        ctx.instance("R17g", f"{f.file}:{f.ident}", f"{what} is tested whatever `aggressive` is", ok=ok and bool(sites), nontrivial=True, line=f.node.lineno)
+        if not (ok and sites):
+            ctx.report("R17g", f, f.node, f"Cell.is_empty: {what} test depends on aggressive (or is gone)",
+                       f"a cell's {what} no longer makes it non-empty in every mode: rstrip(aggressive=True) / optimize_width then delete cells that carry "
+                       f"content or belong to a span")
+
+
+def _aggr_gates(test: ast.expr, site: ast.AST) -> bool:
+    """In `not aggressive and X` (an And containing both), `aggressive` gates X."""
+    for n in ast.walk(test):
+        if isinstance(n, ast.BoolOp) and isinstance(n.op, ast.And):
+            has_site = any(any(x is site for x in ast.walk(v)) for v in n.values)
+            has_aggr = any("aggressive" in ast.unparse(v) and not any(x is site for x in ast.walk(v)) for v in n.values)
+            if has_site and has_aggr:
+                return True
+    return False
+
+
 def r17e(ctx, tom):
     ctx.rule("R17e", "transpose, rstrip and optimize_width end with restored maps and dropped indexes (TOM)", floor=3)
     bad = {f.ident for rule, f, *_ in tom.findings if rule in ("R02a", "R02b")}
@@ -232,6 +273,7 @@ def run(ctx):
     r17d(ctx)
     r17e(ctx, tom)
     r17f(ctx)
+    r17g(ctx)
 
 
 from ..selftest import Seed, unparse_seed  # noqa: E402
@@ -270,5 +312,10 @@ SEEDS = [
          "            if row.is_empty(aggressive=False):\n                count += 1\n        if count > 0:", "R17d"),
     Seed("transpose forgets the rebuild", "fault", _T, "                self.append_row(row, clone=False)\n            self._compute_table_cache()\n        else:",
          "                row.y = None\n                self._append(row)\n        else:", "R17e"),
-    unparse_seed(_T), unparse_seed(_R),
+    Seed("aggressive emptiness ignores span membership", "fault", "src/odfdo/cell.py",
+         "        if self.value is not None or self.children or self.is_spanned():\n            return False\n        if not aggressive and self.style is not None:  # noqa: SIM103\n            return False\n        return True",
+         "        if self.value is not None or self.children:\n            return False\n        if aggressive:\n            return True\n        return self.style is None and not self.is_spanned()", "R17g"),
+    Seed("emptiness ignores children", "fault", "src/odfdo/cell.py",
+         "        if self.value is not None or self.children or self.is_spanned():", "        if self.value is not None or self.is_spanned():", "R17g"),
+    unparse_seed(_T), unparse_seed(_R), unparse_seed("src/odfdo/cell.py"),
 ]
